@@ -178,13 +178,19 @@ def hasFail : List WOp → Bool
 /-- The usage contract of the writer API as a protocol on the call sequence (netbuf.h): `reserve n` must
 be followed by `consume d` with `d.length ≤ n` before anything else happens — in particular before
 control returns to the event loop, so no transport completion in between.  State: the outstanding
-reservation. -/
-def clientOK : Option Nat → List WOp → Bool
-  | _, [] => true
-  | Option.none, .reserve n :: ops => clientOK (some n) ops
-  | Option.none, .write _ :: ops => clientOK Option.none ops
-  | Option.none, .net _ :: ops => clientOK Option.none ops
-  | some n, .consume d :: ops => decide (d.length ≤ n) && clientOK Option.none ops
-  | _, _ => false
+reservation.  `none`: the call is not allowed here. -/
+def clientStep : Option Nat → WOp → Option (Option Nat)
+  | Option.none, .reserve n => some (some n)
+  | Option.none, .write _ => some Option.none
+  | Option.none, .net _ => some Option.none
+  | some n, .consume d => if d.length ≤ n then some Option.none else Option.none
+  | _, _ => Option.none
+
+def clientOK (s : Option Nat) : List WOp → Bool
+  | [] => true
+  | op :: ops =>
+    match clientStep s op with
+    | some s' => clientOK s' ops
+    | Option.none => false
 
 end Percival.Spec.ByteStream
